@@ -22,7 +22,7 @@ ASSUMPTIONS = ["symbol names are identifiers other than Python keywords; a plain
                "custom gate names do not collide with built-in names or wrapper markers"]
 BOUNDS = {"quick": {"wrapper_depth": 2, "two_op_subalphabet": 14}, "thorough": {"wrapper_depth": 3, "two_op_subalphabet": 24}}
 
-PARAMS = [0.5, -1.25, 3, 1e-07, 0.30000000000000004, "r:1/3", "s:pi/3", "f:0.1", "s:theta", "s:gamma", "s:S", "s:I", "s:E", "s:lambda_", "s:x[3]", "s:y[10]", "s:2*theta+0.1",
+PARAMS = ["k:pi", "k:E", "k:2*pi", 0.5, -1.25, 3, 1e-07, 0.30000000000000004, "r:1/3", "s:pi/3", "f:0.1", "s:theta", "s:gamma", "s:S", "s:I", "s:E", "s:lambda_", "s:x[3]", "s:y[10]", "s:2*theta+0.1",
           "s:cos(theta)*x[3]", "s:theta/3-gamma", "s:beta*alpha"]
 SINGLE = ["RX", "RY", "RZ", "RH", "PHASE", "GPi", "GPi2", "CPHASE", "XX", "YY", "ZZ", "XY", "Delay"]
 FIXED = ["X", "Y", "Z", "H", "I", "S", "SX", "T", "CNOT", "CZ", "SWAP", "ISWAP"]
@@ -31,6 +31,8 @@ FIXED = ["X", "Y", "Z", "H", "I", "S", "SX", "T", "CNOT", "CZ", "SWAP", "ISWAP"]
 def sym_param(p):
     """like lib.param but maps the shadow names to plain Symbols"""
     from mc.lib import param
+    if isinstance(p, str) and p.startswith("k:"):   # sympy constants, exactly
+        return {"k:pi": sympy.pi, "k:E": sympy.E, "k:2*pi": 2 * sympy.pi}[p]
     if isinstance(p, str) and p.startswith("s:"):
         txt = p[2:]
         import re
@@ -81,7 +83,8 @@ def named_definition(name, npar, variant):
     if key not in _NAMED:
         a = sympy.Symbol("a")
         if npar == 0:
-            M = sympy.Matrix([[0, 1j], [1, 0]]) if variant == 0 else sympy.Matrix([[1, 0], [0, 1j]])
+            M = {0: sympy.Matrix([[0, 1j], [1, 0]]), 1: sympy.Matrix([[1, 0], [0, 1j]]),
+                 2: sympy.Matrix([[0, sympy.I], [sympy.exp(sympy.I * sympy.pi / 4), 0]])}[variant]   # entries that are exactly I / contain pi
             _NAMED[key] = C.CustomGateDefinition(name, M, ())
         else:
             M = sympy.Matrix([[sympy.cos(a), -sympy.sin(a)], [sympy.sin(a), sympy.cos(a)]]) if variant == 0 else sympy.Matrix([[1, 0], [0, sympy.exp(sympy.I * a)]])
@@ -289,6 +292,7 @@ def run(run):
     # custom gate names: differing from built-ins/markers only by letter case, equal to other module-level names of the library, unusual identifiers
     NAMES = ["sx", "rx", "Rx", "u3", "cnot", "x", "Swap", "ms", "control", "dagger", "exponential", "power", "Union", "Callable", "GateRef", "GatePrototype", "_gates", "_matrices",
              "make_parametric_gate_prototype", "builtin_gate_by_name", "my_gate_2", "lambda_gate", "G", "sympy", "Gate"]
+    gates += [{"g": "named", "name": "exact_constants", "variant": 2}]
     gates += [{"g": "named", "name": nm} for nm in NAMES] + [{"g": "named", "name": nm, "p": [p]} for nm in NAMES for p in (0.5, "s:theta")]
 
     def place(g):
